@@ -142,6 +142,11 @@ impl Prop for C17 {
         for s in ["1e40", "1e-40", "123456789012345678901234567890123456789/7", "-98765432109876543210987654321/340282366920938463463374607431768211456", "0/1"] {
             sink(Case::new("rational-big", s));
         }
+        // compounds as the parser builds them from prefixed words (the gram is stored relative to the
+        // kilogram, so `yg` carries a stored prefix outside the nominal range), alone and in shapes
+        for w in ["g", "m", "s", "A", "K", "mol", "cd", "B", "N", "J", "W", "Pa", "l", "eV", "V", "Wb"] {
+            sink(Case::new("parsed", w.to_string()));
+        }
         // machine-word boundaries (2^k - 1, 2^k, 2^k + 1 for the usual widths), as numerator and as
         // denominator, both signs: a compact integer fast path in the encoding loses exactly these
         for k in [7u32, 8, 15, 16, 31, 32, 53, 63, 64, 65, 127, 128] {
@@ -234,6 +239,26 @@ impl Prop for C17 {
                     }
                 }
                 fw::pass(true, h)
+            }
+            "parsed" => {
+                let mut n = 0u64;
+                for (sym, long, _) in crate::tables::PREFIXES.iter().chain([("", "", 0)].iter()) {
+                    for pfx in [sym, long] {
+                        let word = format!("{pfx}{}", case.key);
+                        for shape in [word.clone(), format!("{word}^2"), format!("{word}^-1"), format!("{word}/s"), format!("m*{word}^3")] {
+                            let c: Compound = match shape.parse() {
+                                Ok(c) => c,
+                                Err(_) => continue,
+                            };
+                            n += 1;
+                            if let Err(e) = compound_rt(&c, &[]) {
+                                return fw::fail("compound-roundtrip:parsed", format!("the unit `{shape}` as parsed ({c}): {e}"));
+                            }
+                        }
+                    }
+                }
+                _env.bulk_evals += n;
+                fw::pass(n > 0, n)
             }
             "pair" | "triple" => {
                 let idx: Vec<usize> = case.key.split(',').map(|s| s.parse().unwrap()).collect();
